@@ -216,12 +216,18 @@ Inductive op : Type :=
 | NewLeaf (reuse : bool)                    (* Function(is_leaf=True, reuse_gradient=reuse) *)
 | Combine (terms : list (fid * Q))
 | Direct (w : wdict) (reuse : bool)         (* Function(is_leaf=False, decomposition_dict=w, reuse_gradient=reuse) *)
-| Oracle (f : fid) (p : pdict)
-| Gradient (f : fid) (p : pdict)
-| Value (f : fid) (p : pdict)
+| Oracle (f : fid) (p : pterm)               (* the query point as the user WROTE it with the Point operators *)
+| Gradient (f : fid) (p : pterm)
+| Value (f : fid) (p : pterm)
 | Stationary (f : fid)
 | Fixed (f : fid)
-| AddPoint (f : fid) (x g : pdict) (v : edict).
+| AddPoint (f : fid) (x g : pterm) (v : edict).
+
+(** The decomposition of a point written with the Point operators over the leaf points: [Terms.compileP]
+    (the model of PEPit/point.py, C06).  The bookkeeping only ever sees this dictionary; [+] and [-] prune
+    it, so that a point that returns to an earlier one ([x1 - (x1 - x0)], [(x0 + g) - g]) has the earlier
+    one's decomposition; a scaling does not prune ([0*y] is [{y: 0}]). *)
+Definition pt (t : pterm) : pdict := compileP (fun _ => 0) (fun v => [(v, 1)]) t.
 
 Definition combine_weights (s : state) (terms : list (fid * Q)) : wdict :=
   match terms with
@@ -252,9 +258,9 @@ Definition step_ret (s : state) (o : op) : state * ret :=
            (funs s ++ [mkF false (combine_reuse s terms) (combine_weights s terms) [] []]), [])
   | Direct w reuse =>
       (mkS (pt_ctr s) (ex_ctr s) (funs s ++ [mkF false reuse w [] []]), [])
-  | Oracle f p => let '(s', (g, v)) := oracle s f p in (s', [inl g; inr v])
-  | Gradient f p => let '(s', (g, _)) := oracle s f p in (s', [inl g])
-  | Value f p => let '(s', v) := value s f p in (s', [inr v])
+  | Oracle f p => let '(s', (g, v)) := oracle s f (pt p) in (s', [inl g; inr v])
+  | Gradient f p => let '(s', (g, _)) := oracle s f (pt p) in (s', [inl g])
+  | Value f p => let '(s', v) := value s f (pt p) in (s', [inr v])
   | Stationary f =>
       let '(x, s1) := fresh_pt s in
       let '(v, s2) := fresh_ex s1 in
@@ -263,7 +269,7 @@ Definition step_ret (s : state) (o : op) : state * ret :=
       let '(x, s1) := fresh_pt s in
       let '(v, s2) := fresh_ex s1 in
       (add_point s2 f (x, x, v), [inl x; inl x; inr v])
-  | AddPoint f x g v => (add_point s f (x, g, v), [])
+  | AddPoint f x g v => (add_point s f (pt x, pt g, v), [])
   end.
 
 Definition step (s : state) (o : op) : state := fst (step_ret s o).
@@ -301,6 +307,9 @@ Definition trace (c : bool * list op) : D :=
     handed to the constructor is over leaf functions and is not declared differentiable with a
     non-differentiable term, and [add_point] is called by the user the way the primitive steps call it: on a point that is not yet recorded for
     the function or for one of its terms.
+    Query points are point TERMS: the side conditions speak about [pt p], the decomposition the Point
+    algebra of /repo gives to what the user wrote (that the implementation's object has exactly this
+    decomposition is part of the correspondence check).
     [op_guard]: excludes exactly the triggers of the open findings: a composite that is the ZERO
     FUNCTION -- its weights are a bare zero scaling [{f: 0, ...}] (F-C07d) or everything cancelled
     [{}] (F-C07c); with [__add__] pruning, these are the only operator-built composites with a zero
@@ -334,18 +343,18 @@ Definition op_scoped (s : state) (o : op) : bool :=
   | Direct w reuse =>
       nodup_by Nat.eqb (keys w) && forallb (fun '(k, _) => in_range s k && f_leaf (getf s k)) w
       && implb reuse (forallb (fun '(k, _) => f_reuse (getf s k)) w)
-  | Oracle f p | Gradient f p | Value f p => in_range s f && pwf_b s p
+  | Oracle f p | Gradient f p | Value f p => in_range s f && pwf_b s (pt p)
   | Stationary f | Fixed f => in_range s f
   | AddPoint f x g v =>
-      in_range s f && pwf_b s x && nodup_by Nat.eqb (keys g) && nodup_by ekey_eqb (keys v)
-      && fresh_for s f (prune x)
+      in_range s f && pwf_b s (pt x) && nodup_by Nat.eqb (keys (pt g)) && nodup_by ekey_eqb (keys v)
+      && fresh_for s f (prune (pt x))
   end.
 
 Definition op_guard (s : state) (o : op) : bool :=
   match o with
   | Combine terms => allnz_b (combine_weights s terms) && negb (is_nil (combine_weights s terms))
   | Direct w _ => allnz_b w && negb (is_nil w)
-  | Oracle _ p | Gradient _ p | Value _ p => allnz_b p
+  | Oracle _ p | Gradient _ p | Value _ p => allnz_b (pt p)
   | _ => true
   end.
 
